@@ -11,3 +11,4 @@ from . import overlap_c  # noqa: F401
 from . import cog_c  # noqa: F401
 from . import crsguard_c  # noqa: F401
 from . import densify_c  # noqa: F401
+from . import crs_c  # noqa: F401
